@@ -73,6 +73,8 @@ class Sched:
         self.by_ident = {}
         self.line_codes = {}
         self.frozen = False             # True: no more choices offered (default schedule)
+        self.eager_start = False        # default-schedule variant: a started thread runs before its starter continues
+        self.prefer = None
         self.died = []                  # (name, exception repr, traceback) for library threads that died
 
     # ---- bookkeeping -------------------------------------------------------------------------
@@ -208,6 +210,11 @@ class Sched:
                 default = lazies[0]
             else:
                 default = cur if (cur in nonlazy) else nonlazy[0]
+                if self.prefer is not None:
+                    # eager-start policy: a freshly started thread runs first by default
+                    if self.eager_start and self.prefer in nonlazy:
+                        default = self.prefer
+                    self.prefer = None
             if self.now > self.time_limit:
                 self._abort('timelimit')
             options = [default] + [t for t in self.threads
@@ -708,6 +715,7 @@ def _p_start(self):
         raise RuntimeError('threads can only be started once')
     self._vf_sched = s
     self._vf_vt = s.spawn(self, self.run, name=type(self).__name__ + ':' + str(len(s.threads)))
+    s.prefer = self._vf_vt
     s.point('thread.start')
 
 
